@@ -31,7 +31,7 @@
    Deviations from the code, named: contexts/links merging of batch contexts is not modelled; the
    byte overhead of containers is not modelled; the worker pool has one token (NumConsumers is
    forced to 1 when batching is configured). *)
-EXTENDS BatcherObs, SequencesExt
+EXTENDS BatcherObs, BatcherSplit, SequencesExt
 
 CONSTANTS
   Reqs,        \* set of request names
@@ -60,35 +60,8 @@ NoBatch == [items |-> <<>>, dones |-> <<>>, none |-> TRUE]
 B(items, ds) == [items |-> items, dones |-> ds, none |-> FALSE]
 
 Strip(s)  == [i \in DOMAIN s |-> [id |-> s[i].id, ctx |-> s[i].ctx]]
-RECURSIVE Weight(_)
-Weight(s) == IF s = <<>> THEN 0 ELSE Head(s).w + Weight(Tail(s))
-SizeOf(s) == IF Sizer = "items" THEN Len(s) ELSE Weight(s)
-
----------------------------------------------------------------------------
-(* MergeSplit *)
-
-\* number of leading items of s that fit into max (bytes)
-RECURSIVE Fit(_, _)
-Fit(s, room) == IF s = <<>> \/ Head(s).w > room THEN 0 ELSE 1 + Fit(Tail(s), room - Head(s).w)
-
-\* result of a split: [ok |-> FALSE] = the loop never ends; otherwise the parts
-Diverges  == [ok |-> FALSE, parts |-> <<>>]
-Parts(ps) == [ok |-> TRUE, parts |-> ps]
-
-\* req.split(maxSize, sz): extract while size > max, then the remainder
-RECURSIVE Split(_)
-Split(s) ==
-  IF MaxSize = 0 \/ SizeOf(s) <= MaxSize THEN Parts(<<s>>)
-  ELSE LET k0 == IF Sizer = "items" THEN MaxSize ELSE Fit(s, MaxSize)
-           k  == IF k0 = 0 /\ Oversized = "alone" THEN 1 ELSE k0
-       IN IF k = 0 THEN Diverges
-          ELSE LET rest == Split(SubSeq(s, k + 1, Len(s)))
-               IN IF ~rest.ok THEN Diverges
-                  \* the repaired code does not return an empty remainder after an item sent alone
-                  ELSE IF rest.parts = << <<>> >> THEN Parts(<<SubSeq(s, 1, k)>>)
-                  ELSE Parts(<<SubSeq(s, 1, k)>> \o rest.parts)
-
-MergeSplit(curItems, newItems) == Split(curItems \o newItems)
+SizeOf(s) == SizeOfP(s, Sizer)
+MergeSplit(curItems, newItems) == MergeSplitP(curItems, newItems, Sizer, MaxSize, Oversized)
 
 ---------------------------------------------------------------------------
 Init ==
